@@ -229,8 +229,8 @@ def _find_support_thresholds(
     fpr: Optional[np.ndarray],
     thresholds: Optional[np.ndarray],
     nb_points: Optional[int],
-    nb_extra_points: Optional[int],
-    x_axis: str,
+    nb_extra_points: Optional[int] = None,
+    x_axis: str = "fnr",
 ) -> np.ndarray:
     """
     This function contains the logic for combining the user-provided FNR, FPR, and
